@@ -185,7 +185,7 @@ package nfs
 //@   requires [D4-fromscratch] noLocks() @C06
 //@   allocates $TXALLOC
 //@   modifies $TXMODS, sortperm
-//@   ensures [aborted] result == nil ==> noLocks() && lastst == 3 && dirtyInv() && allocInv() @C09 @C06
+//@   ensures [aborted] result == nil ==> noLocks() && lastst == 3 && dirtyInv() && allocInv() && opInv(op) && curop == base(op) && listsValid(op.Atxn) @C09 @C06
 //@   ensures [locked] result != nil ==> len(result) == len(inums) && txOpen(op) && allClean() @C06 @C08
 //@   ensures [locked-all] result != nil ==> (forall k uint64 :: k < len(inums) ==> held[inums[k]] && result[k] == op.inodes[inums[k]] && result[k] != nil && result[k].Inum == inums[k]) @C06 @C08
 //@   ensures [locked-0] result != nil && len(inums) > 0 ==> inodeInv(result[0]) && (result[0].Kind == 2 ==> dirShape(result[0])) @C08
@@ -344,3 +344,39 @@ package nfs
 //@   ensures [R2-durable] result.Status == 0 ==> lastst == 1 @C01
 //@   ensures [A1-aborted] result.Status != 0 ==> lastst == 3 || lastst == 4 @C09
 //@   ensures [L2-quiet] rpcPost(nfs) @C03 @C06 @C14
+
+// C03-L3, C08-H1: after relocking 3 or 4 inodes in order, RENAME revalidates
+// both directories against their handles and both names against the inodes.
+//@ specfunc lockedDir(ip *inode.Inode) = ip != nil && held[ip.Inum] && inodeInv(ip) && (ip.Kind == 2 ==> dirShape(ip))
+//@ spec validateRename
+//@   props C03 C08 C06 C11 C10
+//@   requires txOpen(op) && allClean() && (len(inodes) == 3 || len(inodes) == 4)
+//@   requires lockedDir(inodes[0]) && lockedDir(inodes[1]) && lockedDir(inodes[2]) && (len(inodes) == 4 ==> lockedDir(inodes[3]))
+//@   requires (len(inodes) == 3 ==> inodes[1].Inum != 0 && inodes[2].Inum != 0) && (len(inodes) == 4 ==> inodes[2].Inum != 0 && inodes[3].Inum != 0)
+//@   allocates $DIRALLOC
+//@   modifies $FILEMODS, $DIRMODS, dirtyinum, wroteinum, abits
+//@   ensures [L3-dirs] result ==> inodes[0].Inum == fromfh.Ino && inodes[0].Gen == fromfh.Gen && (len(inodes) == 3 ==> inodes[0].Inum == tofh.Ino && inodes[0].Gen == tofh.Gen) && (len(inodes) == 4 ==> inodes[1].Inum == tofh.Ino && inodes[1].Gen == tofh.Gen) @C08 @C03
+//@   ensures [L3-names] result ==> (len(inodes) == 3 ==> inodes[0].Kind == 2 && dnames[inodes[0].Inum][fromn] == inodes[1].Inum && dnames[inodes[0].Inum][ton] == inodes[2].Inum) && (len(inodes) == 4 ==> inodes[0].Kind == 2 && inodes[1].Kind == 2 && dnames[inodes[0].Inum][fromn] == inodes[2].Inum && dnames[inodes[1].Inum][ton] == inodes[3].Inum) @C03 @C02
+//@   ensures txOpen(op) && allClean() && held == old(held) && abits[theIalloc] == old(abits)[theIalloc]
+//@   ensures lockedDir(inodes[0]) && lockedDir(inodes[1]) && lockedDir(inodes[2]) && (len(inodes) == 4 ==> lockedDir(inodes[3]))
+
+// RENAME: one transaction removes the source name, the overwritten target
+// (if any) and adds the target name (C01-R6, C02-Fn5, C04-I3). Retries happen
+// only after an abort with nothing held (C06-D4).
+//@ specfunc renDirs(dipfrom *inode.Inode, dipto *inode.Inode, args nfstypes.RENAME3args) = lockedDir(dipfrom) && lockedDir(dipto) && dipfrom.Kind == 2 && matches(dipfrom, args.From.Dir) && matches(dipto, args.To.Dir)
+//@ specfunc renNames(dipfrom *inode.Inode, dipto *inode.Inode, frominum uint64, args nfstypes.RENAME3args) = frominum != 0 && frominum < 32768 && dnames[dipfrom.Inum][args.From.Name] == frominum && (dipto.Kind == 2 ==> dnames[dipto.Inum][args.To.Name] == 0 || (dipto == dipfrom && args.To.Name == args.From.Name))
+//@ spec (*Nfs).NFSPROC3_RENAME
+//@   props C01 C02 C03 C04 C05 C06 C08 C09 C10 C11 C14
+//@   requires rpcPre(nfs)
+//@   allocates $TXALLOC, $DIRALLOC, nfstypes.RENAME3res, struct:struct{}
+//@   modifies $TXMODS, $FILEMODS, $DIRMODS, $SHRINKMODS, dnames, sortperm, shrinker.ShrinkerSt.nthread
+//@   ensures [R2-durable] result.Status == 0 ==> lastst == 1 @C01
+//@   ensures [A1-aborted] result.Status != 0 ==> lastst == 3 || lastst == 4 @C09
+//@   ensures [Fn5-renamed] result.Status == 0 ==> dnames[fhIno(args.To.Dir)][args.To.Name] != 0 @C02
+//@   ensures [Fn5-source-gone] result.Status == 0 ==> dnames[fhIno(args.From.Dir)][args.From.Name] == 0 || (fhIno(args.From.Dir) == fhIno(args.To.Dir) && dnames[fhIno(args.From.Dir)][args.From.Name] == dnames[fhIno(args.To.Dir)][args.To.Name]) @C02 @C04
+//@   ensures [L2-quiet] rpcPost(nfs) @C03 @C06 @C14
+//@   loop 0 invariant nfsInv(nfs) && !muheld[base(nfs.shrinkst.mu)] && dirtyInv() && allocInv()
+//@   loop 0 invariant [retry-idle] !done && (!success ==> noLocks()) @C06
+//@   loop 0 invariant [ready-tx] success ==> txOpen(op) && op.Fs == nfs.fsstate && allClean() && (forall i uint64 :: dirtyinum[i] ==> wroteinum[i])
+//@   loop 0 invariant [ready-dirs] success ==> renDirs(dipfrom, dipto, args)
+//@   loop 0 invariant [ready-names] success ==> renNames(dipfrom, dipto, frominum, args)
